@@ -21,6 +21,9 @@ def bound(q, k, min_ex):
         return T * (k // (T * min_ex) + 1) if min_ex else k + T
     if iface == "async":
         return T + k if b else k // min_ex + 1
+    if iface == "tf" and T is None and not b:
+        # as_tfdataset(file_parallelism=None) on fb/npz reads with one thread; tf.data itself may run a few elements ahead
+        return k // min_ex + 1 + 4
     return None
 
 
@@ -37,6 +40,8 @@ def jobs_for(ctx, n):
                 fp = rng.choice([1, 2, 3, 5])
                 reqs.append({"iface": iface, "split": 0, "shuffle": sh, "repeat": repeat, "file_parallelism": fp,
                              "take": rng.choice([1, 2, 5, 12, 25]), "spy": True, "delay": 0.004})
+        # no degree of parallelism given (None) to the tf.data interface of an fb/npz dataset: one reading thread
+        reqs.append({"iface": "tf", "split": 0, "shuffle": 0, "repeat": False, "file_parallelism": None, "take": rng.choice([1, 2]), "spy": True, "delay": 0.004})
         # one slow shard at the head of the ordered readers: the other workers must not keep reading ahead meanwhile
         for iface in ("concurrent", "async"):
             reqs.append({"iface": iface, "split": 0, "shuffle": 0, "repeat": True, "file_parallelism": rng.choice([2, 3, 5]),
